@@ -2,3 +2,376 @@
 From Coq Require Import ZifyBool ZifyNat ZifyN Lia.
 From KV Require Import Bytes RustInt Cache Fixture RuleSet RuleSetProofs Cors.
 Open Scope N_scope.
+
+(** ---- strings ---- *)
+Lemma find_sub_split p s i : find_sub p s = Some i -> s = firstn i s ++ p ++ skipn (i + length p) s.
+Proof.
+  revert i; induction s as [|c r IH]; intros i; cbn [find_sub].
+  - destruct (starts_with p []) eqn:E; [|discriminate].
+    intros H; inversion H; subst. apply starts_with_app in E as [q Hq].
+    destruct p; [reflexivity|discriminate].
+  - destruct (starts_with p (c :: r)) eqn:E.
+    + intros H; inversion H; subst. apply starts_with_app in E as [q Hq].
+      cbn [firstn app plus]. rewrite Hq at 1. f_equal.
+      rewrite Hq. rewrite skipn_app, Nat.sub_diag, skipn_all. reflexivity.
+    + destruct (find_sub p r) as [j|] eqn:F; [|discriminate].
+      intros H; inversion H; subst. cbn [firstn plus skipn app]. f_equal. apply IH. reflexivity.
+Qed.
+
+Lemma split_once_sound o x y : split_once_sep o = Some (x, y) -> o = x ++ B "://" ++ y.
+Proof.
+  unfold split_once_sep. destruct (find_sub (B "://") o) as [i|] eqn:F; [|discriminate].
+  intros H; inversion H; subst. apply find_sub_split in F. exact F.
+Qed.
+
+Lemma find_sub_nocolon s a : mem_byte c_colon s = false -> find_sub (B "://") (s ++ B "://" ++ a) = Some (length s).
+Proof.
+  induction s as [|c r IH]; intros H.
+  - reflexivity.
+  - cbn [mem_byte] in H. apply orb_false_iff in H as [H1 H2].
+    cbn [app find_sub length]. replace (starts_with (B "://") (c :: r ++ B "://" ++ a)) with false.
+    + rewrite (IH H2). reflexivity.
+    + symmetry. change (B "://") with (c_colon :: B "//"). cbn [starts_with].
+      rewrite N.eqb_sym, H1. reflexivity.
+Qed.
+
+Lemma firstn_app_exact {A} (l r : list A) : firstn (length l) (l ++ r) = l.
+Proof. rewrite firstn_app, Nat.sub_diag, firstn_all. cbn. apply app_nil_r. Qed.
+Lemma skipn_app_exact {A} (l r : list A) : skipn (length l) (l ++ r) = r.
+Proof. rewrite skipn_app, Nat.sub_diag, skipn_all. reflexivity. Qed.
+
+Lemma beq_sym a c : beq a c = beq c a.
+Proof.
+  destruct (beq a c) eqn:E1, (beq c a) eqn:E2; try reflexivity.
+  - apply beq_eq in E1; subst. rewrite beq_refl in E2. discriminate.
+  - apply beq_eq in E2; subst. rewrite beq_refl in E1. discriminate.
+Qed.
+
+(** the same-origin test is "the header is literally scheme://authority" *)
+Lemma ipo_literal o s a : mem_byte c_colon s = false ->
+  is_part_of_origin o (Some s) (Some a) = beq o (s ++ B "://" ++ a).
+Proof.
+  intros Hs. unfold is_part_of_origin.
+  destruct (beq o (s ++ B "://" ++ a)) eqn:E.
+  - apply beq_eq in E; subst. unfold split_once_sep. rewrite (find_sub_nocolon s a Hs).
+    rewrite firstn_app_exact.
+    replace (length s + 3)%nat with (length (s ++ B "://")) by (rewrite app_length; reflexivity).
+    rewrite app_assoc, skipn_app_exact. cbn [opt_beq]. rewrite !beq_refl. reflexivity.
+  - destruct (split_once_sep o) as [[x y]|] eqn:S; [|reflexivity].
+    apply split_once_sound in S. cbn [opt_beq].
+    destruct (beq x s) eqn:E1; [|reflexivity]. cbn [negb].
+    destruct (beq a y) eqn:E2; [|reflexivity].
+    apply beq_eq in E1, E2; subst. rewrite beq_refl in E. discriminate.
+Qed.
+
+Lemma existsb_pointwise {A} (f g : A -> bool) l : (forall x, f x = g x) -> existsb f l = existsb g l.
+Proof. intros H; induction l as [|x r IH]; cbn [existsb]; [reflexivity|]. rewrite H, IH. reflexivity. Qed.
+
+(** ---- the code's check is the property's decision function ---- *)
+Definition verdict_grant (v : verdict) : option grant :=
+  match v with VSame => Some same_origin_grant | VAllow g => Some g | VRefuse => None end.
+
+Lemma check_is_spec parse get m s a p o : mem_byte c_colon s = false ->
+  check_cors_request parse is_part_of_origin get m (Some s) (Some a) p o
+  = verdict_grant (cors_spec parse get m s a p o).
+Proof.
+  intros Hs. unfold check_cors_request, cors_spec. destruct o as [o|]; [|reflexivity].
+  rewrite (ipo_literal o s a Hs).
+  destruct (to_str_ok o && beq o (s ++ B "://" ++ a)); [reflexivity|].
+  destruct (get p) as [al|]; [|destruct (parse o); reflexivity].
+  destruct (parse o) as [ou|]; [|reflexivity].
+  unfold al_check, al_grant.
+  rewrite (existsb_pointwise (fun allowed => origin_matches allowed ou)
+             (fun a0 => opt_beq (Some (ao_scheme a0)) (u_scheme ou) && opt_beq (Some (ao_host a0)) (u_host ou)
+                        && opt_neq (ao_port a0) (u_port ou))).
+  2:{ intros x. unfold origin_matches.
+      destruct (opt_beq (Some (ao_scheme x)) (u_scheme ou)), (opt_beq (Some (ao_host x)) (u_host ou)),
+               (opt_neq (ao_port x) (u_port ou)); reflexivity. }
+  destruct (al_all al); cbn [orb fst].
+  - unfold method_allowed. destruct (al_methods al) as [l|]; [destruct (mem_N m l)|]; reflexivity.
+  - destruct (existsb _ (al_allowed al)); cbn [andb fst]; [|reflexivity].
+    unfold method_allowed. destruct (al_methods al) as [l|]; [destruct (mem_N m l)|]; reflexivity.
+Qed.
+
+(** ---- internal routes and [uri_redirect] ---- *)
+Lemma internal_contains p : starts_with (B "/./") p = true -> contains_sub (B "./") p = true.
+Proof.
+  change (B "/./") with [47; 46; 47]. intros H.
+  destruct p as [|a [|b [|c r]]]; cbn [starts_with] in H.
+  - discriminate.
+  - apply andb_true_iff in H as [_ H]. discriminate.
+  - apply andb_true_iff in H as [_ H]. apply andb_true_iff in H as [_ H]. discriminate.
+  - apply andb_true_iff in H as [Ha H]. apply andb_true_iff in H as [Hb H]. apply andb_true_iff in H as [Hc _].
+    apply N.eqb_eq in Ha, Hb, Hc; subst. reflexivity.
+Qed.
+
+Lemma internal_app p s :
+  contains_sub (B "./") p = false ->
+  starts_with (B "/./") s = false -> starts_with (B "./") s = false -> starts_with (B "/") s = false ->
+  starts_with (B "/./") (p ++ s) = false.
+Proof.
+  intros Hp H3 H2 H1. destruct p as [|a [|b [|c r]]].
+  - exact H3.
+  - change (B "/./") with (47 :: B "./"). cbn [app starts_with]. rewrite H2. apply andb_false_r.
+  - change (B "/./") with (47 :: 46 :: B "/"). cbn [app starts_with]. rewrite H1. rewrite !andb_false_r. reflexivity.
+  - destruct (starts_with (B "/./") ((a :: b :: c :: r) ++ s)) eqn:E; [|reflexivity].
+    assert (starts_with (B "/./") (a :: b :: c :: r) = true) as Hi.
+    { change (B "/./") with [47; 46; 47] in *. cbn [app starts_with] in *. exact E. }
+    apply internal_contains in Hi. congruence.
+Qed.
+
+Lemma uri_redirect_fields r :
+  rq_method (uri_redirect r) = rq_method r /\ rq_query (uri_redirect r) = rq_query r /\
+  rq_headers (uri_redirect r) = rq_headers r /\ rq_addr (uri_redirect r) = rq_addr r.
+Proof.
+  unfold uri_redirect. destruct (rev (rq_path r)) as [|c l]; [repeat split|].
+  destruct (c =? 46); [repeat split|]. destruct (c =? 47); repeat split.
+Qed.
+
+Lemma path_ok_external p : path_part_ok p = true -> starts_with (B "/./") p = false.
+Proof.
+  unfold path_part_ok. intros H. apply andb_true_iff in H as [H _]. apply andb_true_iff in H as [H _].
+  apply negb_true_iff in H. destruct (starts_with (B "/./") p) eqn:E; [|reflexivity].
+  apply internal_contains in E. congruence.
+Qed.
+
+Lemma uri_redirect_external r : path_part_ok (rq_path r) = true -> starts_with (B "/./") (rq_path (uri_redirect r)) = false.
+Proof.
+  intros H. pose proof (path_ok_external _ H) as He.
+  assert (contains_sub (B "./") (rq_path r) = false) as Hc.
+  { unfold path_part_ok in H. apply andb_true_iff in H as [H _]. apply andb_true_iff in H as [H _].
+    apply negb_true_iff in H. exact H. }
+  unfold uri_redirect. destruct (rev (rq_path r)) as [|c l]; [exact He|].
+  destruct (c =? 46); [cbn [rq_path]; apply internal_app; [exact Hc|reflexivity..]|].
+  destruct (c =? 47); [cbn [rq_path]; apply internal_app; [exact Hc|reflexivity..]|exact He].
+Qed.
+
+Lemma sanitize_path r : sanitize_ok_fix r = true -> path_part_ok (rq_path r) = true.
+Proof. unfold sanitize_ok_fix. intros H. apply andb_true_iff in H as [H _]. exact H. Qed.
+
+(** ---- the prime chain ---- *)
+Section Primes.
+  Variable parse : bytes -> option uparts.
+  Variable conn_scheme : bytes.
+  Variable cfg : ccfg.
+  Hypothesis Hscheme : mem_byte c_colon conn_scheme = false.
+  Notation ipo := is_part_of_origin.
+
+  Definition gate_id : prime_id := if cc_with_cors cfg then P_with_cors else P_deny.
+  Lemma prime_list_shape :
+    prime_list cfg = (16777216%Z, gate_id) :: (16777215%Z, P_options)
+                     :: (if cc_new cfg then [((-100)%Z, P_uri_redirect)] else []).
+  Proof. unfold prime_list, gate_id. destruct (cc_new cfg), (cc_with_cors cfg); reflexivity. Qed.
+
+  Definition has (n : bytes) (r : request) : bool := match header n r with Some _ => true | None => false end.
+  (** the shape the preflight Prime reacts to *)
+  Definition pf_shape (r : request) : bool := (rq_method r =? M_OPTIONS) && has H_ORIGIN r && has H_ACRM r.
+  Definition ov_of (r : request) : option bytes :=
+    if pf_shape r then Some OV_OPTIONS
+    else match req_verdict parse conn_scheme cfg r with VRefuse => Some OV_FAIL | _ => None end.
+
+  Lemma req_check_spec r a : header H_HOST r = Some a ->
+    req_check parse ipo conn_scheme (effective_rules cfg) r = verdict_grant (req_verdict parse conn_scheme cfg r).
+  Proof.
+    intros Ha. unfold req_check, req_verdict. rewrite Ha. apply check_is_spec. exact Hscheme.
+  Qed.
+
+  Lemma call_gate r a : header H_HOST r = Some a ->
+    call_prime parse ipo conn_scheme cfg gate_id r
+    = match req_verdict parse conn_scheme cfg r with VRefuse => Some (OV_FAIL, None) | _ => None end.
+  Proof.
+    intros Ha. unfold gate_id. destruct (cc_with_cors cfg) eqn:W.
+    - cbn [call_prime]. pose proof (req_check_spec r a Ha) as H. unfold effective_rules in H. rewrite W in H.
+      rewrite H. destruct (req_verdict parse conn_scheme cfg r); reflexivity.
+    - cbn [call_prime]. unfold req_verdict, effective_rules, cors_spec. rewrite W, Ha.
+      destruct (header H_ORIGIN r) as [o|]; [|reflexivity].
+      rewrite (ipo_literal o conn_scheme a Hscheme).
+      destruct (to_str_ok o); cbn [andb].
+      + destruct (beq o (conn_scheme ++ B "://" ++ a)); reflexivity.
+      + reflexivity.
+  Qed.
+
+  Lemma call_options r :
+    call_prime parse ipo conn_scheme cfg P_options r = if pf_shape r then Some (OV_OPTIONS, None) else None.
+  Proof. reflexivity. Qed.
+
+  Lemma resolve_prime_eq r0 a :
+    header H_HOST r0 = Some a -> sanitize_ok_fix r0 = true ->
+    resolve_prime parse ipo conn_scheme cfg (prime_list cfg) r0 None = (rw cfg r0, ov_of r0).
+  Proof.
+    intros Ha Hs. rewrite prime_list_shape. cbn [resolve_prime].
+    rewrite (call_gate r0 a Ha), call_options. unfold ov_of.
+    assert (forall u, resolve_prime parse ipo conn_scheme cfg
+                        (if cc_new cfg then [((-100)%Z, P_uri_redirect)] else []) r0 u = (rw cfg r0, u)) as Hlast.
+    { intros u. unfold rw. destruct (cc_new cfg); [|reflexivity].
+      cbn [resolve_prime call_prime].
+      destruct (beq (rq_path (uri_redirect r0)) (rq_path r0)) eqn:E.
+      - f_equal. apply beq_eq in E. destruct (uri_redirect_fields r0) as (Hm & Hq & Hh & Had).
+        destruct r0 as [m p q h ad], (uri_redirect (mkReq m p q h ad)) as [m' p' q' h' ad'] eqn:U; cbn in *; subst; reflexivity.
+      - rewrite (uri_redirect_external r0 (sanitize_path r0 Hs)).
+        destruct (uri_redirect_fields r0) as (Hm & Hq & Hh & Had).
+        f_equal. destruct (uri_redirect r0) as [m' p' q' h' ad'] eqn:U; cbn in *; subst; reflexivity. }
+    destruct (req_verdict parse conn_scheme cfg r0); destruct (pf_shape r0);
+      repeat (change (starts_with (B "/./") OV_FAIL) with true; change (starts_with (B "/./") OV_OPTIONS) with true; cbv iota);
+      apply Hlast.
+  Qed.
+End Primes.
+
+(** ---- the cache layer on internal routes ---- *)
+Lemma key_eqb_internal k k' : key_eqb k k' = true -> key_internal k' = key_internal k.
+Proof.
+  destruct k as [p|s i], k' as [p'|s' i']; cbn [key_eqb]; try discriminate.
+  - intros H. apply beq_eq in H; subst. reflexivity.
+  - intros H. apply andb_true_iff in H as [H1 H2]. apply beq_eq in H1. apply Nat.eqb_eq in H2. subst. reflexivity.
+Qed.
+
+Lemma c_find_internal c k : no_internal c -> key_internal k = true -> c_find k c = None.
+Proof.
+  intros Hc Hk. induction c as [|[k' e] r IH]; [reflexivity|].
+  cbn [c_find]. destruct (key_eqb k k') eqn:E.
+  - apply key_eqb_internal in E. rewrite (Hc k' e (or_introl eq_refl)) in E. congruence.
+  - apply IH. intros k0 e0 Hin. apply (Hc k0 e0). right. exact Hin.
+Qed.
+
+Lemma lookup_internal c now r u : no_internal c -> starts_with (B "/./") u = true ->
+  lookup (key_request r (Some u)) c now = ((KPath u, None), c).
+Proof.
+  intros Hc Hu. unfold lookup, key_request, key_pq, key_p, path_query, get_item. cbn [rq_query rq_path].
+  rewrite (c_find_internal c (KPathQuery u (length u)) Hc) by (cbn [key_internal]; rewrite firstn_all; exact Hu).
+  rewrite (c_find_internal c (KPath u) Hc) by exact Hu. reflexivity.
+Qed.
+
+Lemma find_marker_internal u hs i acc :
+  (forall p sp, In (p, sp) hs -> starts_with (B "/./") p = false) -> starts_with (B "/./") u = true ->
+  find_marker u hs i acc = acc.
+Proof.
+  revert i acc. induction hs as [|[q sp] r IH]; intros i acc Hh Hu; [reflexivity|].
+  cbn [find_marker]. destruct (beq q u) eqn:E.
+  - apply beq_eq in E; subst. rewrite (Hh u sp (or_introl eq_refl)) in Hu. discriminate.
+  - apply IH; [|exact Hu]. intros p sp' Hin. apply (Hh p sp'). right. exact Hin.
+Qed.
+
+Lemma wants_cache_denied b m : wants_cache b m denied_fat = false.
+Proof.
+  unfold wants_cache. change (negb (status_filter_drop (f_status denied_fat))) with false.
+  rewrite andb_false_r. reflexivity.
+Qed.
+Lemma wants_cache_options b m g : wants_cache b m (options_fat g) = false.
+Proof.
+  destruct g as [[[ms hs] t]|]; [|apply wants_cache_denied].
+  unfold wants_cache. cbn [options_fat f_spref]. change (pref_caches SP_NONE) with false.
+  rewrite andb_false_r. reflexivity.
+Qed.
+
+Section Main.
+  Variable parse : bytes -> option uparts.
+  Variable conn_scheme : bytes.
+  Variable cfg : ccfg.
+  Hypothesis Hscheme : mem_byte c_colon conn_scheme = false.
+  Hypothesis Hext : handlers_external cfg.
+  Notation ipo := is_part_of_origin.
+  Notation verdict_of := (req_verdict parse conn_scheme cfg).
+  Notation respond' := (respond parse ipo conn_scheme cfg).
+
+  Lemma compute_fail r :
+    compute_ov parse ipo conn_scheme cfg tt r (Some OV_FAIL) true = (denied_fat, tt, []).
+  Proof.
+    unfold compute_ov. cbn [negb]. rewrite (find_marker_internal OV_FAIL _ O None Hext) by reflexivity. reflexivity.
+  Qed.
+  Lemma compute_options r :
+    compute_ov parse ipo conn_scheme cfg tt r (Some OV_OPTIONS) true
+    = (options_fat (req_check parse ipo conn_scheme (effective_rules cfg) r), tt, []).
+  Proof.
+    unfold compute_ov. cbn [negb]. rewrite (find_marker_internal OV_OPTIONS _ O None Hext) by reflexivity. reflexivity.
+  Qed.
+
+  Lemma serve_core_internal c now r u f lg :
+    no_internal c -> starts_with (B "/./") u = true ->
+    compute_ov parse ipo conn_scheme cfg tt r (Some u) true = (f, tt, lg) ->
+    wants_cache (cc_cache cfg) (rq_method r) f = false ->
+    serve_core parse ipo conn_scheme cfg (c, tt) now true r (Some u)
+    = ((c, tt), {| rp_status := f_status f; rp_headers := f_headers f; rp_body := f_body f; rp_identity := f_body f;
+                   rp_last_modified := false; rp_from_cache := false |}, lg).
+  Proof.
+    intros Hc Hu Hcomp Hw. unfold serve_core. destruct (cc_cache cfg) eqn:C; cbn [negb].
+    - rewrite (lookup_internal c now r u Hc Hu). unfold miss. rewrite Hcomp.
+      unfold may_store. rewrite Hw. cbn [andb]. unfold finish, no_negotiate, no_vary_header. rewrite app_nil_r. reflexivity.
+    - rewrite Hcomp. unfold finish, no_negotiate, no_vary_header. rewrite app_nil_r. reflexivity.
+  Qed.
+
+  Lemma rw_fields r : rq_method (rw cfg r) = rq_method r /\ rq_headers (rw cfg r) = rq_headers r.
+  Proof.
+    unfold rw. destruct (cc_new cfg); [|split; reflexivity].
+    destruct (uri_redirect_fields r) as (Hm & _ & Hh & _). split; assumption.
+  Qed.
+  Lemma rw_header n r : header n (rw cfg r) = header n r.
+  Proof. unfold header. destruct (rw_fields r) as [_ H]. rewrite H. reflexivity. Qed.
+
+  Lemma req_check_rw r : stable cfg r ->
+    req_check parse ipo conn_scheme (effective_rules cfg) (rw cfg r) = req_check parse ipo conn_scheme (effective_rules cfg) r.
+  Proof.
+    intros Hst. unfold req_check, check_cors_request. rewrite !rw_header. destruct (rw_fields r) as [Hm _]. rewrite Hm.
+    unfold stable in Hst. rewrite Hst. reflexivity.
+  Qed.
+
+  (** what the Package does, in terms of the verdict *)
+  Lemma package_stable r0 a hs : header H_HOST r0 = Some a -> stable cfg r0 ->
+    cors_package parse ipo conn_scheme cfg (rw cfg r0) hs
+    = if cc_with_cors cfg then
+        match header H_ORIGIN r0 with
+        | Some o => match verdict_of r0 with VRefuse => hs | _ => set_header H_ACAO o hs end
+        | None => hs
+        end
+      else hs.
+  Proof.
+    intros Ha Hst. unfold cors_package. destruct (cc_with_cors cfg) eqn:W; [|reflexivity].
+    rewrite rw_header. destruct (header H_ORIGIN r0) as [o|]; [|reflexivity].
+    pose proof (req_check_rw r0 Hst) as H1. pose proof (req_check_spec parse conn_scheme cfg Hscheme r0 a Ha) as H2.
+    unfold effective_rules in H1, H2. rewrite W in H1, H2. rewrite H1, H2.
+    destruct (verdict_of r0); reflexivity.
+  Qed.
+
+  (** ---- refused: 403, no handler, no access-control-allow-origin, cache untouched — for every cache state ---- *)
+  Lemma refused_reply c now r0 a :
+    header H_HOST r0 = Some a -> sanitize_ok_fix r0 = true -> no_internal c -> stable cfg r0 ->
+    verdict_of r0 = VRefuse ->
+    respond' (c, tt) now r0 = ((c, tt), mkWire 403 [] (if rq_method r0 =? M_HEAD then [] else DENIED) []).
+  Proof.
+    intros Ha Hs Hc Hst Hv. unfold respond, serve_ov.
+    rewrite (resolve_prime_eq parse conn_scheme cfg Hscheme r0 a Ha Hs). cbn [fst]. rewrite Hs.
+    assert (exists u, ov_of parse conn_scheme cfg r0 = Some u /\ starts_with (B "/./") u = true /\
+                      compute_ov parse ipo conn_scheme cfg tt (rw cfg r0) (Some u) true = (denied_fat, tt, [])) as (u & Hu & Hi & Hcomp).
+    { unfold ov_of. rewrite Hv. destruct (pf_shape r0).
+      - exists OV_OPTIONS. split; [reflexivity|]. split; [reflexivity|].
+        rewrite compute_options, (req_check_rw r0 Hst), (req_check_spec parse conn_scheme cfg Hscheme r0 a Ha), Hv. reflexivity.
+      - exists OV_FAIL. split; [reflexivity|]. split; [reflexivity|]. apply compute_fail. }
+    rewrite Hu. rewrite (serve_core_internal c now (rw cfg r0) u denied_fat [] Hc Hi Hcomp (wants_cache_denied _ _)).
+    cbn [rp_status rp_headers rp_body f_status f_headers f_body denied_fat].
+    rewrite (package_stable r0 a [] Ha Hst), Hv.
+    destruct (cc_with_cors cfg); [destruct (header H_ORIGIN r0)|]; reflexivity.
+  Qed.
+
+  (** ---- preflight: exactly the rule's methods, headers and max-age (rounded up), for every cache state ---- *)
+  Lemma preflight_reply c now r0 a o ms hs t :
+    header H_HOST r0 = Some a -> sanitize_ok_fix r0 = true -> no_internal c -> stable cfg r0 ->
+    pf_shape r0 = true -> header H_ORIGIN r0 = Some o ->
+    verdict_grant (verdict_of r0) = Some (ms, hs, t) ->
+    respond' (c, tt) now r0
+    = ((c, tt), mkWire 204 (let h := [(H_ACAM, methods_bytes ms); (H_ACAH, join_comma hs); (H_ACMA, dec (max_age_secs t))] in
+                            if cc_with_cors cfg then h ++ [(H_ACAO, o)] else h) [] []).
+  Proof.
+    intros Ha Hs Hc Hst Hpf Ho Hv. unfold respond, serve_ov.
+    rewrite (resolve_prime_eq parse conn_scheme cfg Hscheme r0 a Ha Hs). cbn [fst]. rewrite Hs.
+    unfold ov_of. rewrite Hpf.
+    assert (compute_ov parse ipo conn_scheme cfg tt (rw cfg r0) (Some OV_OPTIONS) true = (options_fat (Some (ms, hs, t)), tt, [])) as Hcomp.
+    { rewrite compute_options, (req_check_rw r0 Hst), (req_check_spec parse conn_scheme cfg Hscheme r0 a Ha), Hv. reflexivity. }
+    rewrite (serve_core_internal c now (rw cfg r0) OV_OPTIONS _ [] Hc eq_refl Hcomp (wants_cache_options _ _ _)).
+    cbn [rp_status rp_headers rp_body f_status f_headers f_body options_fat].
+    rewrite (package_stable r0 a _ Ha Hst), Ho.
+    assert (rq_method r0 =? M_HEAD = false) as Hm.
+    { unfold pf_shape in Hpf. apply andb_true_iff in Hpf as [Hpf _]. apply andb_true_iff in Hpf as [Hpf _].
+      apply N.eqb_eq in Hpf. rewrite Hpf. reflexivity. }
+    rewrite Hm. destruct (cc_with_cors cfg); [|reflexivity].
+    destruct (verdict_of r0); [reflexivity|reflexivity|discriminate].
+  Qed.
+End Main.
